@@ -15,22 +15,10 @@
 // Oracle = std::vector / std::string mirror built from the arguments only,
 // the lifetime ledger of the Tracked element type, canaries, ASan.
 #include "C14/machine.h"
-#include <igris/container/static_vector.h>
-#include <igris/container/static_string.h>
 #include <igris/container/unbounded_array.h>
 
 using namespace hv;
 using namespace c14;
-
-namespace
-{
-    struct TwinC
-    {
-        static constexpr bool port = false;
-        template <class T, size_t N> using vec = igris::static_vector<T, N>;
-        template <size_t N> using str = igris::static_string<N>;
-    };
-}
 
 // ------------------------------------------------------------------ unbounded_array
 // (anchored by C14, repaired for C03): K heap arrays of a ledger element type.
@@ -182,6 +170,17 @@ template <class T> struct UMachine : IMachine
 
 static std::unique_ptr<IMachine> mach;
 
+// which translation unit holds the instantiation
+typedef IMachine *(*Factory)(bool, bool, size_t, int, bool);
+static IMachine *make_trk_or_rest_c(bool str, bool trk, size_t N, int K, bool can) { return !str && trk ? make_c_small_trk(str, trk, N, K, can) : make_c_small_rest(str, trk, N, K, can); }
+static IMachine *make_trk_or_rest_p(bool str, bool trk, size_t N, int K, bool can) { return !str && trk ? make_p_small_trk(str, trk, N, K, can) : make_p_small_rest(str, trk, N, K, can); }
+static Factory pick(bool p, bool str, size_t N)
+{
+    if (N <= 8) return p ? make_trk_or_rest_p : make_trk_or_rest_c;
+    if (!str && N <= 257) return p ? make_p_big_trk : make_c_big_trk;
+    return p ? make_p_big_rest : make_c_big_rest;
+}
+
 static void run_op(const std::vector<std::string> &w, const std::string &, out &o)
 {
     if (w.empty())
@@ -197,18 +196,14 @@ static void run_op(const std::vector<std::string> &w, const std::string &, out &
             bool p = w[2] == "p", trk = w[3] == "trk", can = w[6] == "canary";
             size_t N = (size_t)atoi(w[4].c_str());
             int K = atoi(w[5].c_str());
-            if (N <= 8) mach.reset(p ? make_vec_portable(trk, N, K, can) : make_vec<TwinC>(trk, N, K, can));
-            else if (N >= 255 && N <= 257) mach.reset(p ? make_b8_p(false, trk, N, K, can) : make_b8_c(false, trk, N, K, can));
-            else mach.reset(p ? make_b16_p(false, trk, N, K, can) : make_b16_c(false, trk, N, K, can));
+            mach.reset(pick(p, false, N)(false, trk, N, K, can));
         }
         else if (w.size() == 6 && w[1] == "ss")
         {
             bool p = w[2] == "p", can = w[5] == "canary";
             size_t N = (size_t)atoi(w[3].c_str());
             int K = atoi(w[4].c_str());
-            if (N <= 8) mach.reset(p ? make_str_portable(N, K, can) : make_str<TwinC>(N, K, can));
-            else if (N <= 257) mach.reset(p ? make_b8_p(true, false, N, K, can) : make_b8_c(true, false, N, K, can));
-            else mach.reset(p ? make_b16_p(true, false, N, K, can) : make_b16_c(true, false, N, K, can));
+            mach.reset(pick(p, true, N)(true, false, N, K, can));
         }
         else if (w.size() == 4 && w[1] == "ua")
         {
@@ -620,6 +615,10 @@ static void big_vec_history(rng &r, const VCfg &c)
         P((i & 1 ? "emplace 0 " : "push 0 ") + S(val(r)));
     for (int i = 0; i < 5; i++) // N-2 -> N-1 -> N -> dropped, dropped, dropped
         P((i & 1 ? "emplace 0 " : "push 0 ") + S(val(r)));
+    P("at 0 " + S(N - 1));
+    P("at 0 " + S(N)); // outside the contract
+    P("back 0");
+    P("front 0");
     P("copy 1 0");
     P("push 1 " + S(val(r)));
     P("move 2 1");
@@ -735,9 +734,8 @@ static void gen_big(rng &r, bool)
     for (const char *tw : {"c", "p"})
     {
         for (int N : {255, 256, 257})
-            for (const char *ty : {"int", "trk"})
-                big_vec_history(r, VCfg{tw, ty, N});
-        for (int N : {127, 128, 65535, 65536, 65537})
+            big_vec_history(r, VCfg{tw, "trk", N});
+        for (int N : {65535, 65536, 65537})
             big_vec_history(r, VCfg{tw, "int", N});
         for (int N : {127, 128, 255, 256, 257, 65535, 65536, 65537})
             big_str_history(r, tw, N);
@@ -789,7 +787,8 @@ static void gen_exc(rng &r, bool thorough)
                 for (auto &[op, cnt] : ops)
                     for (int t = 0; t <= cnt; t++)
                     {
-                        if (N > 3 && t > 1 && t < cnt - 1 && !r.chance(thorough ? 60 : 25)) continue;
+                        if (N > 3 && t > 1 && t < cnt - 1 && !r.chance(thorough ? 60 : 20)) continue;
+                        if (N == 3 && !thorough && t > 0 && t < cnt - 1 && k > 0 && k < N && !r.chance(50)) continue;
                         P(vreset(c, 3));
                         fill(r, 0, k);
                         fill(r, 1, l);
@@ -845,6 +844,51 @@ static void gen_exc(rng &r, bool thorough)
     P("thr 0 push 0 5");
     P("push 0 6");
     P("finish");
+}
+
+// ---------------------------------------------------------------- read accessors
+// at r i (operator[] / data()[i] / *(begin()+i), const and non-const), front r, back r
+// at every index of every fill level, also after erase / resize / a move.
+static void gen_access(rng &r, bool)
+{
+    for (const char *tw : {"c", "p"})
+        for (const char *ty : {"int", "trk"})
+            for (int N : {1, 2, 3, 8})
+            {
+                VCfg c{tw, ty, N};
+                bool port = tw[0] == 'p';
+                for (int k = 0; k <= N; k++)
+                {
+                    if (N == 8 && k > 1 && k < N - 1) continue;
+                    P(vreset(c, 2));
+                    fill(r, 0, k);
+                    for (int i = 0; i <= k; i++) // i = k: outside the contract (bad on both sides)
+                        P("at 0 " + S(i));
+                    P("front 0");
+                    P("back 0");
+                    P("push 0 " + S(val(r)));
+                    P("back 0");
+                    P("move 1 0");
+                    P("front 1");
+                    P("back 1");
+                    P("front 0");
+                    P("resize 0 " + S(N));
+                    P("at 0 " + S(N - 1));
+                    P("back 0");
+                    if (!port)
+                    {
+                        P("erase 0 0 1");
+                        P("back 0");
+                        P("front 0");
+                    }
+                    P("resize 0 1");
+                    P("front 0");
+                    P("back 0");
+                    P("clear 0");
+                    P("front 0");
+                    P("finish");
+                }
+            }
 }
 
 static void gen_ua(rng &r, bool thorough)
@@ -909,6 +953,7 @@ int main(int argc, char **argv)
             gen_ua(r, th);
             gen_big(r, th);
             gen_exc(r, th);
+            gen_access(r, th);
         },
         run_op);
 }
